@@ -197,6 +197,19 @@ CLAIMED = {
             "code deviations are modelled as named branches.",
             "E is html5lib's own message table (consistency check of the code). Conformance of generated documents and of the ampersand "
             "/ caption cases is my transcription of the standard. Inputs whose non-strict parse crashes are left to C03.", "5/C16"),
+    "C04": ("model_checking",
+            "TLA+ specs EtreeStore (text/tail/children + html5lib's shadow list) and DomStore (minidom with separate text nodes, "
+            "two attribute indexes) with abstraction functions to the TreeOps tree, TreeStore (backend-neutral client: insert, "
+            "foster parenting, reconstruction, adoption agency steps, getFragment); TLC refinement theorems; every explored call "
+            "sequence replayed on the real node classes; primitive-call traces of real parses and the six builder forms of each "
+            "input validated (Trace_TreeStore, Trace_Builders); plus the C01 replay on both builders",
+            "TLC proves AbsE = AbsD = abstract tree, no exception, and agreement of rows, attributes and hasContent for every sequence "
+            "of <=5-6 tree-construction client operations on <=8 nodes, and representation invariants for raw primitive calls; every "
+            "behaviour is replayed on the real classes (rows, attributes, exceptions, call logs, projections) and real parses are "
+            "validated primitive by primitive; {etree fullTree, etree root, dom} x namespacing must agree on every input.",
+            "The parser-mode client over-approximates tree construction by a stack discipline. Inputs containing '{' are excluded "
+            "(Clark-notation ambiguity in ElementTree). Two dom findings are named deviations of DomStore; etree-reparent-tail-none is "
+            "shown unreachable from parser patterns within bounds.", "5/C04"),
 }
 
 NOT_YET = "check not built yet in this round (planned, see DESIGN.md section 5)"
